@@ -367,7 +367,11 @@ def lp_items(pid, tier, seed):
         add("A(1,3),(3,1) two-sided x {unit,cap2} x (0,0) x 16 conflict-prone pairs",
             with_profiles(structs_small(True, LONG, (1, 2)), P2),
             lambda i: optvecs(True, ((False, False),), selpairs))
-        argpairs = [[("mincost", (1, 1)), ("mincostlsb", (1, 2))],
+        argpairs = [[("mincost", (0, 1)), ("minsqcost", ())],
+                    [("minsqcost", (0, 1)), ("mincost", ())],
+                    [("mincost", (2, 1)), ("minsqcost", (1,))],
+                    [("mincostlsb", (0, 1)), ("mincost", ())],
+                    [("mincost", (1, 1)), ("mincostlsb", (1, 2))],
                     [("mincostlsb", (2, 1)), ("lsb", ())],
                     [("gen", (2,)), ("gre", (1,))],
                     [("gre", (1,)), ("gen", (2,))],
@@ -386,6 +390,20 @@ def lp_items(pid, tier, seed):
             [(c, ()) for c in ("mincostlsb", "lsb", "lmb", "minsqcost", "mincost", "gre",
                                "gen", "minsize", "maxsize")],
         ]
+        stab_triples = [[("gre", ()), ("mincost", ()), ("maxsize", ())],
+                        [("gre", ()), ("minsqcost", (1, 1)), ("maxsize", ())],
+                        [("gen", ()), ("mincost", ()), ("maxsize", ())],
+                        [("gre", (2,)), ("lsb", ()), ("maxsize", ())],
+                        [("minsize", ()), ("gre", ()), ("mincost", (1, 1))]]
+        add("M medium structured x -stab x 5 triples where a size criterion comes last",
+            I.family_M(sizes=(4, 5) if thorough else (5,)),
+            lambda i: optvecs(True, ((False, True),), stab_triples))
+        add("HR two-sided (2,2),(3,1),(1,3) x {unit,cap2,lq1uq2} x -stab x the same triples",
+            [x for x in I.family_HR(True, sizes=[(2, 2), (3, 1), (1, 3)])
+             if x.pq[0] in ((0, 1), (0, 2), (1, 2))],
+            lambda i: optvecs(True, ((False, True),),
+                              [t for t in stab_triples
+                               if not any(c[0] == "gre" and c[1] and c[1][0] > 9 for c in t)]))
         add("M medium structured (5 students%s) x (0,0),(0,1) x criteria lists of length 3, 5, 6 and all 9 (both directions)" % (" and 4" if thorough else ""),
             I.family_M(sizes=(4, 5) if thorough else (5,)),
             lambda i: optvecs(True, ((False, False), (False, True)), long_lists))
